@@ -337,12 +337,58 @@ type c19TimingOut struct {
 	BodyOK    bool   `json:"body_ok"`  // the body the client read is byte for byte what the upstream sent
 	BodyLen   int    `json:"body_len"` // bytes read
 	BodyWant  int    `json:"body_want"`
+	UpDelayUs int64  `json:"up_delay_us"` // how long the upstream really took to send its headers (-1 = it never did)
+	NoiseUs   int64  `json:"noise_us"` // worst overshoot of a 5 ms sleep in the harness while the request was out
 	Interims  []int  `json:"interims"` // the informational responses the client received before the final one
 	WarmOK    int    `json:"warm_ok"`  // how many of the warm-up requests were answered 200 "warm"
 	Err       string `json:"err,omitempty"`
 }
 
 const c19Slack = 150 * time.Millisecond
+
+// c19Noise watches the machine while a wall-clock measurement runs: a goroutine sleeps 5 ms at a time and records
+// by how much the longest sleep overshot. On a machine that is busy with twenty other checks a 5 ms sleep can take
+// 100 ms; a measurement that comes out late while the probe saw that is repeated, and if every attempt was
+// disturbed the case is reported as inconclusive (not counted) instead of blaming the code. A measurement that
+// is late on a quiet machine stays a failure.
+const c19NoiseLimit = 25 * time.Millisecond
+
+func c19Noise() (stop func() time.Duration) {
+	done := make(chan struct{})
+	res := make(chan time.Duration, 1)
+	go func() {
+		var worst time.Duration
+		for {
+			select {
+			case <-done:
+				res <- worst
+				return
+			default:
+			}
+			t := time.Now()
+			time.Sleep(5 * time.Millisecond)
+			if o := time.Since(t) - 5*time.Millisecond; o > worst {
+				worst = o
+			}
+		}
+	}()
+	return func() time.Duration { close(done); return <-res }
+}
+
+// c19UpstreamLate: the upstream was to answer well within the limit (d <= T/3) but the busy machine made it take
+// more than half the limit: what was measured is not the case that was asked for.
+func c19UpstreamLate(in c19TimingIn, o c19TimingOut) bool {
+	return in.TMs > 0 && !in.slow() && o.UpDelayUs > int64(in.TMs)*1000/2
+}
+
+// c19OnlyLate: the outcome differs from the expected one in nothing but its time.
+func c19OnlyLate(in c19TimingIn, o c19TimingOut) bool {
+	if c19TimingAsExpected(in, o) {
+		return false
+	}
+	o.ElapsedUs = 0
+	return c19TimingAsExpected(in, o)
+}
 
 func (in c19TimingIn) slow() bool { return in.TMs > 0 && in.DMs > in.TMs }
 
@@ -387,9 +433,16 @@ func c19Body(in c19TimingIn) string {
 
 // c19Upstream starts the upstream of a case and says how the route to it looks.
 func c19Upstream(in c19TimingIn) (up *httptest.Server, tgt c19Target, saw func() int, stop func()) {
+	up, tgt, saw, _, stop = c19UpstreamD(in)
+	return
+}
+
+// c19UpstreamD also reports how long the upstream really took to send the headers of the measured request.
+func c19UpstreamD(in c19TimingIn) (up *httptest.Server, tgt c19Target, saw func() int, delayUs func() int64, stop func()) {
 	release := make(chan struct{})
 	var mu sync.Mutex
 	n := 0
+	var sentAfter int64 = -1
 	wait := func(r *http.Request, d time.Duration) bool {
 		if d <= 0 {
 			return true
@@ -414,6 +467,7 @@ func c19Upstream(in c19TimingIn) (up *httptest.Server, tgt c19Target, saw func()
 			io.WriteString(w, "warm")
 			return
 		}
+		h0 := time.Now()
 		if in.Interim != 0 {
 			w.Header().Set("Link", "</style.css>; rel=preload; as=style")
 			w.WriteHeader(in.Interim)
@@ -421,6 +475,9 @@ func c19Upstream(in c19TimingIn) (up *httptest.Server, tgt c19Target, saw func()
 		if !wait(r, time.Duration(in.DMs)*time.Millisecond) {
 			return
 		}
+		mu.Lock()
+		sentAfter = time.Since(h0).Microseconds()
+		mu.Unlock()
 		ct := "text/plain; charset=utf-8"
 		if r.Header.Get("Accept") == "text/event-stream" {
 			ct = "text/event-stream"
@@ -461,6 +518,7 @@ func c19Upstream(in c19TimingIn) (up *httptest.Server, tgt c19Target, saw func()
 		tgt = c19Target{Scheme: "https", Host: "foo.com", Skip: true}
 	}
 	saw = func() int { mu.Lock(); defer mu.Unlock(); return n }
+	delayUs = func() int64 { mu.Lock(); defer mu.Unlock(); return sentAfter }
 	stop = func() { close(release); up.CloseClientConnections(); up.Close() }
 	return
 }
@@ -516,6 +574,8 @@ func c19Do(in c19TimingIn, url string, out *c19TimingOut) {
 	want := c19Body(in)
 	out.BodyWant = len(want)
 	out.SlackUs = c19Slack.Microseconds()
+	noise := c19Noise()
+	defer func() { out.NoiseUs = noise().Microseconds() }()
 	t0 := time.Now()
 	resp, err := cl.Do(req)
 	out.HeaderUs = time.Since(t0).Microseconds()
@@ -536,8 +596,9 @@ func c19Do(in c19TimingIn, url string, out *c19TimingOut) {
 }
 
 func c19TimingOnce(in c19TimingIn) (out c19TimingOut) {
-	up, tgt, saw, stop := c19Upstream(in)
+	up, tgt, saw, delayUs, stop := c19UpstreamD(in)
 	defer stop()
+	defer func() { out.UpDelayUs = delayUs() }()
 
 	// program order of main: SetConfig, then the table (watchBackend), then the proxies (startServers)
 	cfg := in.cfg().config()
@@ -664,8 +725,9 @@ func c19BinaryOnce(in c19BinaryIn) (out c19TimingOut) {
 		out.Err = err.Error()
 		return
 	}
-	up, tgt, saw, stop := c19Upstream(in.c19TimingIn)
+	up, tgt, saw, delayUs, stop := c19UpstreamD(in.c19TimingIn)
 	defer stop()
+	defer func() { out.UpDelayUs = delayUs() }()
 	var opts []string
 	if tgt.Host != "" {
 		opts = append(opts, "host="+tgt.Host)
@@ -827,14 +889,7 @@ func c19RunBinary(raw json.RawMessage) (interface{}, error) {
 	if _, err := c19Binary(); err != nil {
 		return nil, err
 	}
-	var out c19TimingOut
-	for a := 1; a <= 3; a++ {
-		out = c19BinaryOnce(in)
-		out.Attempts = a
-		if c19TimingAsExpected(in.c19TimingIn, out) {
-			break
-		}
-	}
+	out := c19Measure(in.c19TimingIn, func() c19TimingOut { return c19BinaryOnce(in) })
 	return out, nil
 }
 
@@ -857,6 +912,35 @@ func c19TimingAsExpected(in c19TimingIn, o c19TimingOut) bool {
 	return o.BodyOK && o.ElapsedUs <= c19InTimeBoundUs(in)
 }
 
+// c19Measure repeats a wall-clock measurement whose outcome is not the expected one: at most three attempts on a
+// quiet machine (a deterministic failure fails all of them), up to six while the noise probe reports a disturbed
+// machine and the only thing wrong is the time. If every attempt was late and disturbed the case is inconclusive.
+func c19Measure(in c19TimingIn, once func() c19TimingOut) c19TimingOut {
+	var out c19TimingOut
+	quiet := 0
+	for a := 1; a <= 6; a++ {
+		out = once()
+		out.Attempts = a
+		if c19TimingAsExpected(in, out) || strings.HasPrefix(out.Err, "env:") {
+			return out
+		}
+		disturbed := (c19OnlyLate(in, out) && out.NoiseUs > c19NoiseLimit.Microseconds()) || c19UpstreamLate(in, out)
+		if !disturbed {
+			quiet++
+			if quiet >= 3 {
+				return out
+			}
+		}
+		time.Sleep(time.Duration(a) * 100 * time.Millisecond)
+	}
+	if c19UpstreamLate(in, out) {
+		out.Err = fmt.Sprintf("env: the machine is too busy: the upstream took %d ms to send headers it was to send after %d ms", out.UpDelayUs/1000, in.DMs)
+	} else if c19OnlyLate(in, out) && out.NoiseUs > c19NoiseLimit.Microseconds() {
+		out.Err = fmt.Sprintf("env: the machine is too busy for a wall-clock measurement (a 5 ms sleep took %d ms longer)", out.NoiseUs/1000)
+	}
+	return out
+}
+
 func c19RunTiming(raw json.RawMessage) (interface{}, error) {
 	var in c19TimingIn
 	if err := json.Unmarshal(raw, &in); err != nil {
@@ -867,14 +951,7 @@ func c19RunTiming(raw json.RawMessage) (interface{}, error) {
 	}
 	// A wall-clock measurement on a shared machine: an unexpected outcome is re-measured (at most three
 	// attempts); a deterministic failure (no limit configured, wrong status, body cut off) fails every attempt.
-	var out c19TimingOut
-	for a := 1; a <= 3; a++ {
-		out = c19TimingOnce(in)
-		out.Attempts = a
-		if c19TimingAsExpected(in, out) {
-			break
-		}
-	}
+	out := c19Measure(in, func() c19TimingOut { return c19TimingOnce(in) })
 	return out, nil
 }
 
